@@ -197,8 +197,9 @@ let run (lines : string list) =
               | Some d when s = CC_OK ->
                   let c = sl_abs d in
                   let sz = string_of_n (sl_get_size d) in
+                  let own = Printf.sprintf " own=%s,%s" (string_of_n (count_tag Conf !a)) (string_of_n (count_tag Libc !a)) in
                   a := ok (sl_destroy d !a);
-                  Printf.sprintf " size=%s %s" sz (br c)
+                  Printf.sprintf " size=%s %s%s" sz (br c) own
               | _ -> "") in
             let (s2, c2) = ideal (s = CC_ERR_ALLOC) in
             Printf.printf "%s %s%s%s ## %s %s%s%s\n" op (stat_name s) ms (obs ()) op (stat_name s2)
